@@ -150,7 +150,7 @@ EXPORT errno_t _mbstowcs_s_chk(size_t *restrict retvalp, wchar_t *restrict dest,
             }
             BND_CHK_PTR_BOUNDS(dest, destsz);
         } else {
-            if (unlikely(destsz > destbos || len * sizeof(wchar_t) > destbos)) {
+            if (unlikely(destsz > destbos || len > RSIZE_MAX_WSTR)) {
                 if (unlikely(dmax > RSIZE_MAX_WSTR || len > RSIZE_MAX_WSTR)) {
                     handle_werror(dest, destbos / sizeof(wchar_t),
                                   "mbstowcs"
